@@ -33,15 +33,18 @@ import (
 	"github.com/pingcap/failpoint"
 	"github.com/pingcap/kvproto/pkg/kvrpcpb"
 	"github.com/pingcap/log"
+	"github.com/tikv/client-go/v2/config"
 	"github.com/tikv/client-go/v2/config/retry"
 	tikverr "github.com/tikv/client-go/v2/error"
 	"github.com/tikv/client-go/v2/internal/mockstore/mocktikv"
+	"github.com/tikv/client-go/v2/kv"
 	"github.com/tikv/client-go/v2/oracle"
 	"github.com/tikv/client-go/v2/tikv"
 	"github.com/tikv/client-go/v2/tikvrpc"
 	"github.com/tikv/client-go/v2/txnkv/txnlock"
 	"github.com/tikv/client-go/v2/txnkv/txnsnapshot"
 	"github.com/tikv/client-go/v2/util"
+	"github.com/tikv/client-go/v2/util/async"
 )
 
 var out *bufio.Writer
@@ -292,6 +295,7 @@ type hijack struct {
 	trace    []scanRPC
 	tracing  bool
 	later    []string
+	asyncSent int
 	fakeSt   map[uint64]*kvrpcpb.CheckTxnStatusResponse
 	checks   map[uint64]int
 }
@@ -331,7 +335,7 @@ func (e *env) applyTopo1(ev topoEvent) {
 		}
 		sort.Slice(regs, func(i, j int) bool { return bytes.Compare(regs[i].Meta.StartKey, regs[j].Meta.StartKey) < 0 })
 		i := int(ev.key[0]) % (len(regs) - 1)
-		e.cluster.VerifMerge(regs[i].Meta.Id, regs[i+1].Meta.Id)
+		e.cluster.Merge(regs[i].Meta.Id, regs[i+1].Meta.Id)
 		return
 	}
 	reg, _, _, _ := e.cluster.GetRegionByKey(mocktikv.NewMvccKey(ev.key))
@@ -342,10 +346,31 @@ func (e *env) applyTopo1(ev topoEvent) {
 		return // already a boundary
 	}
 	nr, np := e.cluster.AllocID(), e.cluster.AllocID()
-	e.cluster.VerifSplit(reg.Id, nr, ev.key, []uint64{np}, np)
+	e.cluster.Split(reg.Id, nr, ev.key, []uint64{np}, np)
+}
+
+// SendRequestAsync (the EnableAsyncBatchGet path of snapshot_async.go): the same hooks, then the
+// asynchronous send of the wrapped client
+func (hj *hijack) SendRequestAsync(ctx context.Context, addr string, req *tikvrpc.Request, cb async.Callback[*tikvrpc.Response]) {
+	if resp := hj.pre(req); resp != nil {
+		cb.Schedule(resp, nil)
+		return
+	}
+	hj.mu.Lock()
+	hj.asyncSent++
+	hj.mu.Unlock()
+	hj.Client.SendRequestAsync(ctx, addr, req, cb)
 }
 
 func (hj *hijack) SendRequest(ctx context.Context, addr string, req *tikvrpc.Request, timeout time.Duration) (*tikvrpc.Response, error) {
+	if resp := hj.pre(req); resp != nil {
+		return resp, nil
+	}
+	return hj.send(ctx, addr, req, timeout)
+}
+
+// pre runs the scheduled topology changes / transaction finishes; a non-nil result is a faked answer
+func (hj *hijack) pre(req *tikvrpc.Request) *tikvrpc.Response {
 	e := hj.env
 	switch req.Type {
 	case tikvrpc.CmdGet, tikvrpc.CmdBatchGet, tikvrpc.CmdScan:
@@ -368,7 +393,7 @@ func (hj *hijack) SendRequest(ctx context.Context, addr string, req *tikvrpc.Req
 		if fake, ok := hj.fakeSt[r.LockTs]; ok {
 			hj.mu.Unlock()
 			cp := *fake
-			return &tikvrpc.Response{Resp: &cp}, nil
+			return &tikvrpc.Response{Resp: &cp}
 		}
 		hj.checks[r.LockTs]++
 		n := hj.checks[r.LockTs]
@@ -387,6 +412,11 @@ func (hj *hijack) SendRequest(ctx context.Context, addr string, req *tikvrpc.Req
 			}
 		}
 	}
+	return nil
+}
+
+func (hj *hijack) send(ctx context.Context, addr string, req *tikvrpc.Request, timeout time.Duration) (*tikvrpc.Response, error) {
+	e := hj.env
 	traced := false
 	if req.Type == tikvrpc.CmdScan && hj.tracing {
 		var rstart, rend []byte
@@ -583,7 +613,13 @@ func guard(f func() string) string {
 
 func doGet(s *txnsnapshot.KVSnapshot, k []byte) string {
 	return guard(func() string {
-		v, err := s.Get(context.Background(), k)
+		var v kv.ValueEntry
+		var err error
+		if withCommitTS {
+			v, err = s.Get(context.Background(), k, kv.WithReturnCommitTS())
+		} else {
+			v, err = s.Get(context.Background(), k)
+		}
 		if err != nil {
 			if tikverr.IsErrNotFound(err) {
 				return "none"
@@ -594,9 +630,18 @@ func doGet(s *txnsnapshot.KVSnapshot, k []byte) string {
 	})
 }
 
+// withCommitTS: Get / BatchGet are called with kv.WithReturnCommitTS() (different cache-hit rule)
+var withCommitTS bool
+
 func doBatchGet(s *txnsnapshot.KVSnapshot, ks [][]byte) string {
 	return guard(func() string {
-		m, err := s.BatchGet(context.Background(), ks)
+		var m map[string]kv.ValueEntry
+		var err error
+		if withCommitTS {
+			m, err = s.BatchGet(context.Background(), ks, kv.WithReturnCommitTS())
+		} else {
+			m, err = s.BatchGet(context.Background(), ks)
+		}
 		if err != nil {
 			return "err:" + errKind(err)
 		}
@@ -875,6 +920,11 @@ func runHistory(seed int64, hid int, tier string) {
 		return
 	}
 	h := genHistory(seed, hid, tier)
+	// a third of the histories use the asynchronous batch-get API, a quarter ask for commit timestamps
+	asyncBG := hid%3 == 0
+	withCommitTS = hid%4 == 1
+	restore := config.UpdateGlobal(func(c *config.Config) { c.EnableAsyncBatchGet = asyncBG })
+	defer restore()
 	e := newEnv(h)
 	defer e.store.Close()
 	e.build()
@@ -894,6 +944,7 @@ func runHistory(seed int64, hid int, tier string) {
 		fmt.Fprintf(out, "LATER\t%d\t%s\t=>\tprobed\n", hid, l)
 	}
 	fmt.Fprintf(out, "LATER\t%d\tnone\tnone\t=>\tchecked\n", hid)
+	fmt.Fprintf(out, "MODE\t%d\tasync=%v\tcommitts=%v\tasyncRPCs=%d\n", hid, asyncBG, withCommitTS, e.hj.asyncSent)
 	e.hj.mu.Unlock()
 }
 
